@@ -169,6 +169,12 @@ def jobs(tier, seed):
             if inexact:
                 cfg['float_inexact'] = True
             js.append({'harness': 'stamp', 'cfg': cfg, 'weight': 10})
+    # longer workloads, few timing variables: two bursts (effects that need several packets to show)
+    for kind, t in (('WFQ', {0: 1, 1: 1}), ('VC', {0: 1, 1: 2}), ('VC', {0: 4, 1: 1})):
+        m = 6 if tier == 'quick' else 7
+        js.append({'harness': 'stamp', 'weight': 60, 'opts': {'max_paths': 20000},
+                   'cfg': {'kind': kind, 'rate': 8, 'table': t, 'flows': [0, 1, 0, 1, 1, 0, 0, 1][:m], 'sorts': 'int',
+                           'burst': [0, 1, 1, 0, 1, 1, 1, 1][:m], 'smax': 2}})
     # equal stamps, different arrival instants, creation times in the opposite order
     for kind, t in (('VC', {0: 2, 1: 1}), ('VC', {0: 1, 1: 1}), ('WFQ', {0: 1, 1: 1})):
         js.append({'harness': 'stamp', 'weight': 10,
